@@ -108,6 +108,8 @@ pub struct Spec {
     pub reach: Vec<Reach>,
     pub entries: Vec<Kind>,
     pub types: Vec<ElementType>,
+    /// element types whose NAME has another type in other versions (a parent lists the name twice)
+    pub sw: HashSet<ElementType>,
 }
 
 fn spec_ptr(s: &'static CharacterDataSpec) -> usize {
@@ -188,7 +190,7 @@ impl Spec {
                 }
             }
         }
-        Spec { vers, reach, entries, types }
+        Spec { vers, reach, entries, types, sw }
     }
     fn vidx(&self, v: u32) -> usize {
         self.vers.iter().position(|x| *x as u32 == v).unwrap()
@@ -826,6 +828,13 @@ pub fn sweep_main(args: &[String]) {
         let mut r2 = SplitMix64(seed ^ 0x51C4);
         while picked.len() < want.min(n) {
             picked.insert(r2.below(n as u64) as usize);
+        }
+        // every entry of a version-switching element type is always taken: these are the only places where the type the
+        // check recalculates differs from the stored one (attribute sets, sub-elements and value specs of the two types differ)
+        for (k, e) in sp.entries.iter().enumerate() {
+            if sp.sw.contains(&e.carrier()) {
+                picked.insert(k);
+            }
         }
         let mut p: Vec<usize> = picked.into_iter().collect();
         p.sort();
